@@ -182,7 +182,7 @@ def stoich_side(draw, labels, max_order):
 def system_spec(draw, variety="mild", space_kind="any", max_species=4, max_reactions=3, max_order=3,
                 max_env=3, max_cells=12, chemostats="none", state="any", simple_graph=True,
                 periodic=True, count_exp=(0, 3), rate_exp=(-2, 1), max_axis=4, min_species=1,
-                reversible=True, min_reactions=0):
+                reversible=True, min_reactions=0, max_reactions_override=None):
     """A complete reaction-diffusion system description (see module docstring)."""
     if chemostats == "mixed":
         chemostats = draw(st.sampled_from(["species", "map"]))
@@ -228,6 +228,8 @@ def system_spec(draw, variety="mild", space_kind="any", max_species=4, max_react
                         "density": draw(env_value(envs, dens_si, variety)),
                         "chstt": ch})
     reactions = []
+    if max_reactions_override is not None:
+        max_reactions = max_reactions_override
     n_r = draw(st.sampled_from([k for k in (0, 1, 1, 2, 2, 3, 3, 4, 5) if min_reactions <= k <= max_reactions]))
     for r in range(n_r):
         sub = draw(stoich_side(labels, max_order))
